@@ -47,7 +47,7 @@ theorem rel_issue {w : WM} {iss : List Handle} {s : WS} (hr : Rel ⟨w, iss⟩ s
   refine
   { len := by show (s.ents ++ [x]).length = (iss ++ [h]).length; simp [hlen]
     ents := ?_, deps := hr.deps, lockDepth := hr.lockDepth, nthreads := hr.nthreads, buffers := ?_, marked := ?_,
-    markedLt := ?_ }
+    markedLt := ?_, markedNodup := hr.markedNodup }
   · intro o h' ho
     have ho' : (iss ++ [h])[o]? = some h' := ho
     by_cases hlt : o < iss.length
@@ -243,7 +243,8 @@ theorem inv_ctl_iss {w : WM} {iss : List Handle} (hi : Inv ⟨w, iss⟩) (iss' :
     bufEmpty := hemp
     bufKnown := hkn
     markedKnown := fun h hm => ⟨(hi.markedKnown h hm).1.mono rfl hsub, hmk h hm⟩
-    markedRange := hi.markedRange }
+    markedRange := hi.markedRange
+    markedSorted := hi.markedSorted }
 
 /-! ## a creation while locked: reserve a handle, push the create command -/
 
